@@ -174,7 +174,26 @@ func (r *renderer) dot() string {
 
 func (r *renderer) emit(depth int, s string) {
 	if r.l.Comments && r.l.coin() && r.l.Rng.Intn(4) == 0 {
-		switch r.l.Rng.Intn(4) {
+		switch r.l.Rng.Intn(7) {
+		case 4, 5, 6:
+			// a comment spanning several physical lines, with 0..3 empty lines inside
+			k := r.l.Rng.Intn(7)
+			open, close := "/* ", " */"
+			switch k % 3 {
+			case 1:
+				open, close = "注：“", "”"
+			case 2:
+				open, close = "注：「", "」"
+			}
+			inner := "多行" + r.l.eol()
+			for e := r.l.Rng.Intn(4); e > 0; e-- {
+				inner += r.l.eol()
+			}
+			inner += "注释"
+			if k >= 3 {
+				inner += r.l.eol() + r.l.eol() + "末"
+			}
+			r.push(strings.Repeat(r.l.indent(), depth) + open + inner + close)
 		case 0:
 			s += " // 行尾注释"
 		case 1:
